@@ -9,18 +9,22 @@
     the model's `validateTrx`, lemma `govV_validateTrx_gov`); `GovCtrler_ValidateTrx_ok_iff`: accept ↔ no error.
 
   Hypotheses: `EvenHex tx.to` (byte string), `OracleTied` (the `json.Unmarshal` / `hotfixOption` oracles are
-  the parses recorded in the model's options), `VotedOptsI32` (fewer than 2^31 options), `Int64Fields` and
-  `PropHeightsFit` (the two additions of this function are generated with Go's int64 wrap-around).  The
-  inputs they exclude are exhibited: `GovCtrler_ValidateTrx_differs_oddTo`, `GovCtrler_ValidateTrx_differs_int32`
-  (neither reachable) and **`GovCtrler_ValidateTrx_differs_wrap`** (reachable, a defect of the Go code: the
-  overflow of `StartVotingHeight + VotingPeriodBlocks` is guarded since issue #51, that of
-  `endVotingHeight + LazyApplyingBlocks()` is not);
+  the parses recorded in the model's options), `VotedOptsI32` (fewer than 2^31 options).  NO hypothesis on the
+  heights of a proposal any more: the model's `validateProposal` computes `start + period` and
+  `end + lazyApplyingBlocks` with Go's int64 wrap-around (`Rigo.wrapInt64` = `Rigo.Gen.wrapI64`,
+  `wrapI64_eq_model`), as the generated function does — the former hypotheses `Int64Fields` and `PropHeightsFit`
+  are gone.  The inputs the remaining hypotheses exclude are exhibited: `GovCtrler_ValidateTrx_differs_oddTo`,
+  `GovCtrler_ValidateTrx_differs_int32` (neither reachable).  **`GovCtrler_ValidateTrx_agrees_wrap`** (formerly
+  `…_differs_wrap`): on the reachable input on which the unbounded model used to refuse what the Go code accepts
+  (the overflow of `endVotingHeight + LazyApplyingBlocks()` is not guarded; that of
+  `StartVotingHeight + VotingPeriodBlocks` is since issue #51) model and generated code now both accept;
   `govV_toCheck_exact` shows that the `to` tests differ on the string of 41 zero digits only.
-  `GovCtrler_ValidateTrx_proposalI64` / `_votingI32` are the branch theorems without the arithmetic
-  hypotheses, against copies of the model's functions that compute as Go does.
+  `GovCtrler_ValidateTrx_votingI32` is the voting branch theorem without the arithmetic hypothesis, against a copy
+  of the model's function that computes as Go does.
 -/
 import RigoProofs.GenFuncsCtrlBase
 import RigoProofs.GenFuncsGovMisc
+import RigoProofs.WrapI64
 
 set_option linter.unusedSimpArgs false
 
@@ -148,76 +152,26 @@ def govPropLabel (k : String) : Option String :=
   else if k = "payloadparams" then some "ErrInvalidTrxPayloadParams"
   else none
 
-/-- the heights of a proposal payload are int64 values (upper halves; the Go types guarantee them, the
-    model's payload carries unbounded `Int`s) -/
-def Int64Fields (tx : TxIn) : Prop :=
-  match tx.payload with
-  | .proposal _ start period applying _ _ =>
-    start < 9223372036854775808 ∧ period < 9223372036854775808 ∧ applying < 9223372036854775808
-  | _ => True
+/-- the model's int64 wrap-around is the one of the generated code (same definition; the model does not import
+    the generated file) -/
+theorem wrapI64_eq_model : Gen.wrapI64 = wrapInt64 := rfl
 
-instance (tx : TxIn) : Decidable (Int64Fields tx) := by unfold Int64Fields; split <;> infer_instance
+theorem wrapI64_eq_model' (x : Int) : Gen.wrapI64 x = wrapInt64 x := rfl
 
-/-- no int64 wrap-around that Go does not catch: `start + period` does not underflow (true for any
-    `start ≥ 0`; its overflow IS caught by the guard of issue #51, so it is not excluded), and when it fits
-    `endVotingHeight + LazyApplyingBlocks()` fits too (Go does not guard this second addition:
-    `GovCtrler_ValidateTrx_differs_wrap`) -/
-def PropHeightsFit (s : St) (tx : TxIn) : Prop :=
-  match tx.payload with
-  | .proposal _ start period _ _ _ =>
-    -9223372036854775808 ≤ start + period ∧
-    (start + period < 9223372036854775808 →
-      -9223372036854775808 ≤ start + period + s.active.lazyApplyingBlocks ∧
-      start + period + s.active.lazyApplyingBlocks < 9223372036854775808)
-  | _ => True
-
-instance (s : St) (tx : TxIn) : Decidable (PropHeightsFit s tx) := by
-  unfold PropHeightsFit; split <;> infer_instance
-
-theorem govV_wrapI64_fit (x : Int) (h1 : -9223372036854775808 ≤ x) (h2 : x < 9223372036854775808) :
-    wrapI64 x = x := by
-  unfold wrapI64
-  have e64 : ((two64 : Nat) : Int) = 18446744073709551616 := by decide
-  have e63 : ((two63 : Nat) : Int) = 9223372036854775808 := by decide
-  rw [e64, e63]
-  split <;> omega
-
-theorem govV_wrapI64_hi (x : Int) (h1 : 9223372036854775808 ≤ x) (h2 : x < 18446744073709551616) :
-    wrapI64 x = x - 18446744073709551616 := by
-  unfold wrapI64
-  have e64 : ((two64 : Nat) : Int) = 18446744073709551616 := by decide
-  have e63 : ((two63 : Nat) : Int) = 9223372036854775808 := by decide
-  rw [e64, e63]
-  split <;> omega
-
-/-- `validateProposal` with the two height sums computed as Go does, in int64 with wrap-around -/
-def validateProposalI64 (s : St) (exec : Bool) (height : Int) (tx : TxIn) : Step St := do
-  if !(byteLen tx.to == 20 ∧ isZeroAddr tx.to) then throw (.err "tozero")
-  if !s.isValidator tx.from_ then throw (.err "noright")
-  match tx.payload with
-  | .proposal _ start period applying optType opts =>
-    if (s.props.get exec (ledgerKey tx.hash)).isSome then throw (.err "dupkey")
-    if start ≤ height then throw (.err "payloadparams")
-    if period > s.active.maxVotingPeriodBlocks ∨ period < s.active.minVotingPeriodBlocks then throw (.err "payloadparams")
-    if optType = PROPOSAL_GOVPARAMS ∧ opts.any (fun o => o.parsedV.isNone || o.parsedA.isNone) then throw (.err "payloadparams")
-    let endH := wrapI64 (start + period)
-    let minApplying := wrapI64 (endH + s.active.lazyApplyingBlocks)
-    if start > endH then throw (.err "payloadparams")
-    if applying < minApplying ∨ endH > applying then throw (.err "payloadparams")
-    if opts.isEmpty then throw (.err "payloadparams")
-    pure s
-  | _ => throw (.err "payloadtype")
-
-/-- the proposal branch without the no-overflow hypotheses: the generated function (int64 sums) against
-    `validateProposalI64` -/
-theorem GovCtrler_ValidateTrx_proposalI64 (s : St) (exec : Bool) (height : Int) (tx : TxIn) (ctx : TrxContext)
+/-- `ValidateTrx` on a `TRX_PROPOSAL` transaction is the model's `validateProposal`, check for check in the
+    same order: zero `to` address, validator right, payload type, duplicate, start height, voting period,
+    options parse (as submitted and hot-fixed), `start + period` overflow, applying height, no option.
+    Both sides compute the two height sums in int64 with wrap-around: no hypothesis on the heights.
+    `hto`: the model tests "20 bytes and all digits zero", Go compares with the 20 zero bytes: the same for a
+    byte string (even number of hex digits). -/
+theorem GovCtrler_ValidateTrx_proposal (s : St) (exec : Bool) (height : Int) (tx : TxIn) (ctx : TrxContext)
     (unm : Hex → Option String) (hotfix : Hex → Hex)
     (htx : ctx.tx = trxOf tx) (hex : ctx.exec = exec) (hh : ctx.height = height) (hhash : ctx.txHash = tx.hash)
     (hty : tx.type = TRX_PROPOSAL) (hto : EvenHex tx.to)
     (htie : OracleTied unm hotfix (govParamOpts tx.payload)) :
     Gen.GovCtrler_ValidateTrx (govCtrlOf s) ctx (s.isValidator tx.from_) unm hotfix =
-      .ok (errOf govPropLabel (validateProposalI64 s exec height tx)) := by
-  unfold Gen.GovCtrler_ValidateTrx validateProposalI64
+      .ok (errOf govPropLabel (validateProposal s exec height tx)) := by
+  unfold Gen.GovCtrler_ValidateTrx validateProposal
   subst hex hh
   have hz : (!decide (((byteLen tx.to == 20) = true) ∧ isZeroAddr tx.to = true)) = decide (tx.to ≠ zeroAddr) := by
     simp only [govV_isZero_iff _ hto]; simp
@@ -226,7 +180,8 @@ theorem GovCtrler_ValidateTrx_proposalI64 (s : St) (exec : Bool) (height : Int) 
     simp only [hz, hhash, hty, TRX_PROPOSAL, trxOf, bind, Except.bind, if_true, if_false, throw, throwThe,
       MonadExceptOf.throw,
       Bool.false_eq_true, cmpBytes_eq_zero, zeroAddress20, govCtrlOf, ledOf_get, hexArray32_eq, ne_eq,
-      GovParams_MaxVotingPeriodBlocks_eq, GovParams_MinVotingPeriodBlocks_eq, GovParams_LazyApplyingBlocks_eq]
+      GovParams_MaxVotingPeriodBlocks_eq, GovParams_MinVotingPeriodBlocks_eq, GovParams_LazyApplyingBlocks_eq,
+      wrapI64_eq_model]
     by_cases h1 : ¬ tx.to = zeroAddr
     · simp [h1, errOf, govPropLabel, pure, Except.pure, throw, throwThe, MonadExceptOf.throw]
     have h1 : tx.to = zeroAddr := Classical.not_not.mp h1
@@ -246,21 +201,21 @@ theorem GovCtrler_ValidateTrx_proposalI64 (s : St) (exec : Bool) (height : Int) 
         · simp [h3, h4, hv, errOf, govPropLabel]
         by_cases h4' : period < s.active.minVotingPeriodBlocks
         · simp [h3, h4, h4', hv, errOf, govPropLabel]
-        by_cases h7 : start > wrapI64 (start + period)
+        by_cases h7 : start > wrapInt64 (start + period)
         · by_cases h5 : optType = 257
           · rw [govV_optsLoop' unm hotfix opts (htie' h5)]
             by_cases h6 : opts.any (fun o => o.parsedV.isNone || o.parsedA.isNone) = true
             · simp only [h3, h4, h4', h5, h6, h7, hv]; simp [errOf, govPropLabel]
             · simp only [h3, h4, h4', h5, h6, h7, hv]; simp [errOf, govPropLabel]
           · simp only [h3, h4, h4', h5, h7, hv]; simp [errOf, govPropLabel]
-        by_cases h8 : applying < wrapI64 (wrapI64 (start + period) + s.active.lazyApplyingBlocks)
+        by_cases h8 : applying < wrapInt64 (wrapInt64 (start + period) + s.active.lazyApplyingBlocks)
         · by_cases h5 : optType = 257
           · rw [govV_optsLoop' unm hotfix opts (htie' h5)]
             by_cases h6 : opts.any (fun o => o.parsedV.isNone || o.parsedA.isNone) = true
             · simp only [h3, h4, h4', h5, h6, h7, h8, hv]; simp [errOf, govPropLabel]
             · simp only [h3, h4, h4', h5, h6, h7, h8, hv]; simp [errOf, govPropLabel]
           · simp only [h3, h4, h4', h5, h7, h8, hv]; simp [errOf, govPropLabel]
-        by_cases h8' : wrapI64 (start + period) > applying
+        by_cases h8' : wrapInt64 (start + period) > applying
         · by_cases h5 : optType = 257
           · rw [govV_optsLoop' unm hotfix opts (htie' h5)]
             by_cases h6 : opts.any (fun o => o.parsedV.isNone || o.parsedA.isNone) = true
@@ -286,49 +241,6 @@ theorem GovCtrler_ValidateTrx_proposalI64 (s : St) (exec : Bool) (height : Int) 
       · simp [h1, hg, payOf, TrxPayload.asProposal, errOf, govPropLabel, pure, Except.pure, throw, throwThe,
           MonadExceptOf.throw]
     | _ => simp [h1, payOf, TrxPayload.asProposal, errOf, govPropLabel, pure, Except.pure, throw, throwThe, MonadExceptOf.throw]
-
-/-- under the no-overflow hypotheses the int64 sums change nothing: when `start + period` fits so does the
-    second sum; when it overflows Go's guard (issue #51) refuses, and the model refuses with the same error
-    because `endVotingHeight > applying` -/
-theorem govV_proposalI64_eq (s : St) (exec : Bool) (height : Int) (tx : TxIn)
-    (hi64 : Int64Fields tx) (hfit : PropHeightsFit s tx) :
-    validateProposalI64 s exec height tx = validateProposal s exec height tx := by
-  unfold validateProposalI64 validateProposal
-  cases hp : tx.payload with
-  | proposal msg start period applying optType opts =>
-    unfold Int64Fields at hi64
-    unfold PropHeightsFit at hfit
-    rw [hp] at hi64 hfit
-    simp only at hi64 hfit
-    by_cases hE : start + period < 9223372036854775808
-    · have hW : wrapI64 (start + period) = start + period := govV_wrapI64_fit _ hfit.1 hE
-      have hM : wrapI64 (start + period + s.active.lazyApplyingBlocks) =
-          start + period + s.active.lazyApplyingBlocks := govV_wrapI64_fit _ (hfit.2 hE).1 (hfit.2 hE).2
-      simp only [hW, hM]
-    · have hW : wrapI64 (start + period) = start + period - 18446744073709551616 :=
-        govV_wrapI64_hi _ (by omega) (by omega)
-      have g7 : start > start + period - 18446744073709551616 := by omega
-      have m7 : ¬ start > start + period := by omega
-      have m8' : start + period > applying := by omega
-      simp only [hW, g7, m7, m8', or_true, if_true, if_false, bind, Except.bind, throw, throwThe,
-        MonadExceptOf.throw]
-  | _ => simp only [hp]
-
-/-- `ValidateTrx` on a `TRX_PROPOSAL` transaction is the model's `validateProposal`, check for check in the
-    same order: zero `to` address, validator right, payload type, duplicate, start height, voting period,
-    options parse (as submitted and hot-fixed), `start + period` overflow, applying height, no option.
-    `hto`: the model tests "20 bytes and all digits zero", Go compares with the 20 zero bytes: the same for a
-    byte string (even number of hex digits). -/
-theorem GovCtrler_ValidateTrx_proposal (s : St) (exec : Bool) (height : Int) (tx : TxIn) (ctx : TrxContext)
-    (unm : Hex → Option String) (hotfix : Hex → Hex)
-    (htx : ctx.tx = trxOf tx) (hex : ctx.exec = exec) (hh : ctx.height = height) (hhash : ctx.txHash = tx.hash)
-    (hty : tx.type = TRX_PROPOSAL) (hto : EvenHex tx.to)
-    (htie : OracleTied unm hotfix (govParamOpts tx.payload))
-    (hi64 : Int64Fields tx) (hfit : PropHeightsFit s tx) :
-    Gen.GovCtrler_ValidateTrx (govCtrlOf s) ctx (s.isValidator tx.from_) unm hotfix =
-      .ok (errOf govPropLabel (validateProposal s exec height tx)) := by
-  rw [← govV_proposalI64_eq s exec height tx hi64 hfit]
-  exact GovCtrler_ValidateTrx_proposalI64 s exec height tx ctx unm hotfix htx hex hh hhash hty hto htie
 
 /-! ### `ValidateTrx`, voting branch -/
 
@@ -484,23 +396,19 @@ theorem govV_validateTrx_gov (s : St) (exec : Bool) (height : Int) (tx : TxIn) (
     * `hto`  : the `to` field is a byte string (even number of hex digits) — the model tests
                "20 bytes, all zero", Go compares with the 20 zero bytes;
     * `htie` : the `json.Unmarshal` / `hotfixOption` oracles are the parses recorded in the options;
-    * `hfit` : the heights of the proposal are int64 values and the int64 sums Go computes do not wrap
-               unnoticed (`Int64Fields`, `PropHeightsFit`; the overflow of `start + period` is allowed:
-               Go guards it);
+    * (no hypothesis on the heights of a proposal: the model computes the two sums in int64 as Go does);
     * `hlen` : the proposal voted on has fewer than 2^31 options (`int32(len(prop.Options))`). -/
 theorem GovCtrler_ValidateTrx_eq (s : St) (exec : Bool) (height : Int) (tx : TxIn) (ctx : TrxContext)
     (unm : Hex → Option String) (hotfix : Hex → Hex)
     (htx : ctx.tx = trxOf tx) (hex : ctx.exec = exec) (hh : ctx.height = height) (hhash : ctx.txHash = tx.hash)
     (hto : tx.type = TRX_PROPOSAL ∨ tx.type = TRX_VOTING → EvenHex tx.to)
     (htie : tx.type = TRX_PROPOSAL → OracleTied unm hotfix (govParamOpts tx.payload))
-    (hfit : tx.type = TRX_PROPOSAL → Int64Fields tx ∧ PropHeightsFit s tx)
     (hlen : tx.type = TRX_VOTING → VotedOptsI32 s exec tx) :
     Gen.GovCtrler_ValidateTrx (govCtrlOf s) ctx (s.isValidator tx.from_) unm hotfix =
       .ok (errOf (govLabel tx.type) (govValidate s exec height tx)) := by
   unfold govValidate
   by_cases h4 : tx.type = TRX_PROPOSAL
-  · rw [GovCtrler_ValidateTrx_proposal s exec height tx ctx unm hotfix htx hex hh hhash h4 (hto (.inl h4)) (htie h4)
-      (hfit h4).1 (hfit h4).2]
+  · rw [GovCtrler_ValidateTrx_proposal s exec height tx ctx unm hotfix htx hex hh hhash h4 (hto (.inl h4)) (htie h4)]
     have : govLabel tx.type = govPropLabel := by funext k; simp only [govLabel, if_pos h4]
     rw [this, if_pos h4]
   by_cases h5 : tx.type = TRX_VOTING
@@ -552,11 +460,10 @@ theorem GovCtrler_ValidateTrx_ok_iff (s : St) (exec : Bool) (height : Int) (tx :
     (htx : ctx.tx = trxOf tx) (hex : ctx.exec = exec) (hh : ctx.height = height) (hhash : ctx.txHash = tx.hash)
     (hto : tx.type = TRX_PROPOSAL ∨ tx.type = TRX_VOTING → EvenHex tx.to)
     (htie : tx.type = TRX_PROPOSAL → OracleTied unm hotfix (govParamOpts tx.payload))
-    (hfit : tx.type = TRX_PROPOSAL → Int64Fields tx ∧ PropHeightsFit s tx)
     (hlen : tx.type = TRX_VOTING → VotedOptsI32 s exec tx) :
     (∃ s', govValidate s exec height tx = .ok s') ↔
       Gen.GovCtrler_ValidateTrx (govCtrlOf s) ctx (s.isValidator tx.from_) unm hotfix = .ok none := by
-  rw [GovCtrler_ValidateTrx_eq s exec height tx ctx unm hotfix htx hex hh hhash hto htie hfit hlen]
+  rw [GovCtrler_ValidateTrx_eq s exec height tx ctx unm hotfix htx hex hh hhash hto htie hlen]
   cases hm : govValidate s exec height tx with
   | ok s' => simp [errOf]
   | error f =>
@@ -605,19 +512,23 @@ theorem exGovS_get_cd : exGovS.props.get false (ledgerKey "cd") = none := by
   have : ledgerKey "cd" ≠ ledgerKey "ab" := by decide
   simp [exGovS, Led.get, Std.ExtTreeMap.getElem?_insert, this.symm]
 
+/-- the sums of the examples are int64 values -/
+theorem govV_wrapI64_18 : wrapInt64 18 = 18 := by decide
+theorem govV_wrapI64_23 : wrapInt64 23 = 23 := by decide
+
 def exGovTx1 : TxIn := exGovPropTx [{ raw := "7b7d", parsedV := some default, parsedA := some default }]
 
 /-- a governance-parameters proposal whose option parses in both forms is accepted … -/
 example : Gen.GovCtrler_ValidateTrx (govCtrlOf exGovS) (exGovCtx exGovTx1 7) (exGovS.isValidator exGovTx1.from_)
       exGovUnm id = .ok none := by
   rw [GovCtrler_ValidateTrx_proposal exGovS false 7 exGovTx1 (exGovCtx exGovTx1 7) exGovUnm id rfl rfl rfl rfl rfl
-    (by decide) (by decide) (by decide) (by decide)]
+    (by decide) (by decide)]
   have hv : exGovS.isValidator exGovVal = true := by decide
   have hz : (byteLen zeroAddr == 20) = true ∧ isZeroAddr zeroAddr = true :=
     (govV_isZero_iff zeroAddr (by decide)).mpr rfl
   simp [validateProposal, exGovTx1, exGovPropTx, exGovS_get_cd, hv, hz, errOf, bind, Except.bind, pure, Except.pure,
     PROPOSAL_GOVPARAMS]
-  simp [exGovS]
+  simp [exGovS, govV_wrapI64_18, govV_wrapI64_23]
 
 /-- … and one whose option does not parse after the hot-fix is refused -/
 def exGovTx2 : TxIn := exGovPropTx [{ raw := "7b7d", parsedV := some default, parsedA := none }]
@@ -625,7 +536,7 @@ def exGovTx2 : TxIn := exGovPropTx [{ raw := "7b7d", parsedV := some default, pa
 example : Gen.GovCtrler_ValidateTrx (govCtrlOf exGovS) (exGovCtx exGovTx2 7) (exGovS.isValidator exGovTx2.from_)
       exGovUnm (fun h => h ++ "00") = .ok (some "ErrInvalidTrxPayloadParams") := by
   rw [GovCtrler_ValidateTrx_proposal exGovS false 7 exGovTx2 (exGovCtx exGovTx2 7) exGovUnm _ rfl rfl rfl rfl rfl
-    (by decide) (by decide) (by decide) (by decide)]
+    (by decide) (by decide)]
   have hv : exGovS.isValidator exGovVal = true := by decide
   have hz : (byteLen zeroAddr == 20) = true ∧ isZeroAddr zeroAddr = true :=
     (govV_isZero_iff zeroAddr (by decide)).mpr rfl
@@ -713,7 +624,7 @@ theorem GovCtrler_ValidateTrx_differs_oddTo :
     have hb : (byteLen exOddTo == 20) = true := by decide
     simp [validateProposal, exGovCtx, exGovTx1, exGovPropTx, exGovS_get_cd, hv, hb, exOddTo_zero, bind, Except.bind,
       pure, Except.pure, PROPOSAL_GOVPARAMS]
-    simp [exGovS]
+    simp [exGovS, govV_wrapI64_18, govV_wrapI64_23]
 
 /-- 2^31 options -/
 def exBigOpts : List VoteOpt := List.replicate 2147483648 { raw := "", parsedV := none, parsedA := none }
@@ -763,35 +674,44 @@ def exWrapTx : TxIn :=
 
 theorem exWrapS_get_cd : exWrapS.props.get false (ledgerKey "cd") = none := exGovS_get_cd
 
-theorem govV_wrapI64_ex1 : wrapI64 9223372036854775807 = 9223372036854775807 := by decide
-theorem govV_wrapI64_ex2 : wrapI64 9223372036854775817 = -9223372036854775799 := by decide
+theorem govV_wrapI64_ex1 : wrapInt64 9223372036854775807 = 9223372036854775807 := by decide
+theorem govV_wrapI64_ex2 : wrapInt64 9223372036854775817 = -9223372036854775799 := by decide
 
-/-- **difference, REACHABLE (any validator can submit it), a defect of the Go code**: the int64 addition
+/-- the model accepts the proposal: `minApplyingHeight` wraps to -2^63 + 9 -/
+theorem exWrap_accepts : validateProposal exWrapS false 1 exWrapTx = .ok exWrapS := by
+  have hv : exWrapS.isValidator exGovVal = true := by decide
+  have hz : (byteLen zeroAddr == 20) = true ∧ isZeroAddr zeroAddr = true :=
+    (govV_isZero_iff zeroAddr (by decide)).mpr rfl
+  simp [validateProposal, exWrapTx, exWrapS_get_cd, hv, hz, bind, Except.bind, pure, Except.pure,
+    PROPOSAL_GOVPARAMS, throw, throwThe, MonadExceptOf.throw, govV_wrapI64_ex1, govV_wrapI64_ex2]
+  simp [exWrapS, govV_wrapI64_ex1, govV_wrapI64_ex2]
+
+/-- **agreement on the former difference** (`GovCtrler_ValidateTrx_differs_wrap` before the model followed Go's
+    int64 arithmetic).  REACHABLE input (any validator can submit it): the int64 addition
     `endVotingHeight + LazyApplyingBlocks()` is not guarded against overflow (the first addition,
     `StartVotingHeight + VotingPeriodBlocks`, is since issue #51).  Parameters: voting period 10..10,
     `lazyApplyingBlocks` 10; at height 1 a validator proposes start = 2^63 - 11, period 10, applying = 2^63 - 1.
     `endVotingHeight` = 2^63 - 1 fits, `minApplyingHeight` wraps to -2^63 + 9, so neither
     `applying < minApplyingHeight` nor `endVotingHeight > applying` holds: Go returns nil and the proposal is
-    stored although `applying ≥ end + lazyApplyingBlocks` is violated.  The model (unbounded `Int`) answers
-    "payloadparams".  Effect: the proposal can never open for voting (start ≈ 9.2e18) and stays in the
-    proposal ledger forever.  (Confirmed on the real Go code by a probe.) -/
-theorem GovCtrler_ValidateTrx_differs_wrap :
+    stored although `applying ≥ end + lazyApplyingBlocks` is violated (`¬ ProposalHeightsFit`).  The model now
+    ACCEPTS it too (it used to answer "payloadparams").  Effect: the proposal can never open for voting
+    (start ≈ 9.2e18) and stays in the proposal ledger forever.  (Confirmed on the real Go code by a probe.) -/
+theorem GovCtrler_ValidateTrx_agrees_wrap :
     ∃ (s : St) (tx : TxIn) (ctx : TrxContext) (unm : Hex → Option String) (hotfix : Hex → Hex),
       ctx.tx = trxOf tx ∧ ctx.txHash = tx.hash ∧ tx.type = TRX_PROPOSAL ∧ EvenHex tx.to ∧
-      OracleTied unm hotfix (govParamOpts tx.payload) ∧ Int64Fields tx ∧ ¬ PropHeightsFit s tx ∧
+      OracleTied unm hotfix (govParamOpts tx.payload) ∧ ¬ ProposalHeightsFit s tx ∧ ¬ SumsFit s tx ∧
       Gen.GovCtrler_ValidateTrx (govCtrlOf s) ctx (s.isValidator tx.from_) unm hotfix = .ok none ∧
-      validateProposal s ctx.exec ctx.height tx = .error (.err "payloadparams") := by
-  have hv : exWrapS.isValidator exGovVal = true := by decide
-  have hz : (byteLen zeroAddr == 20) = true ∧ isZeroAddr zeroAddr = true :=
-    (govV_isZero_iff zeroAddr (by decide)).mpr rfl
+      validateProposal s ctx.exec ctx.height tx = .ok s ∧
+      validateProposalOld s ctx.exec ctx.height tx = .error (.err "payloadparams") := by
   refine ⟨exWrapS, exWrapTx, exGovCtx exWrapTx 1, exGovUnm, id, rfl, rfl, rfl, by decide, by decide, by decide,
-    by decide, ?_, ?_⟩
-  · rw [GovCtrler_ValidateTrx_proposalI64 exWrapS false 1 exWrapTx (exGovCtx exWrapTx 1) exGovUnm id
-      rfl rfl rfl rfl rfl (by decide) (by decide)]
-    simp [validateProposalI64, exWrapTx, exWrapS_get_cd, hv, hz, errOf, bind, Except.bind, pure, Except.pure,
-      PROPOSAL_GOVPARAMS, govV_wrapI64_ex1, govV_wrapI64_ex2]
-    simp [exWrapS, govV_wrapI64_ex1, govV_wrapI64_ex2]
-  · simp [validateProposal, exGovCtx, exWrapTx, exWrapS_get_cd, hv, hz, bind, Except.bind, pure, Except.pure,
+    by decide, ?_, exWrap_accepts, ?_⟩
+  · rw [GovCtrler_ValidateTrx_proposal exWrapS false 1 exWrapTx (exGovCtx exWrapTx 1) exGovUnm id
+      rfl rfl rfl rfl rfl (by decide) (by decide), exWrap_accepts]
+    rfl
+  · have hv : exWrapS.isValidator exGovVal = true := by decide
+    have hz : (byteLen zeroAddr == 20) = true ∧ isZeroAddr zeroAddr = true :=
+      (govV_isZero_iff zeroAddr (by decide)).mpr rfl
+    simp [validateProposalOld, exGovCtx, exWrapTx, exWrapS_get_cd, hv, hz, bind, Except.bind, pure, Except.pure,
       PROPOSAL_GOVPARAMS, throw, throwThe, MonadExceptOf.throw]
     simp [exWrapS]
 
